@@ -130,6 +130,7 @@ struct Tr<'a> {
     locals: Vec<(String, Ty, bool)>, // name, type, mutable
     fresh: u32,
     loops: Vec<Vec<String>>, // state variables of the enclosing loops (innermost last)
+    defaulted: BTreeSet<String>, // integer locals whose type was not written and defaulted to a machine word
     in_const: bool,          // inside a constant initialiser: evaluated by the compiler, overflow impossible at run time
 }
 
@@ -285,6 +286,19 @@ impl<'a> Tr<'a> {
             }
             _ => Ty::Unknown,
         }
+    }
+
+    /// a local whose integer type was defaulted must not meet a u8 / Level / char operand: rustc would have
+    /// inferred that narrower type for it, and its arithmetic would have to be checked accordingly
+    fn check_mix(&self, a: &Expr, b: &Expr) -> R<()> {
+        for (x, y) in [(a, b), (b, a)] {
+            if let Some(n) = local_name(x) {
+                if self.defaulted.contains(&n) && matches!(self.infer(y), Ty::U8 | Ty::Level | Ty::Char) {
+                    return Err(format!("the integer type of `{}` is not written and it meets a narrower operand", n));
+                }
+            }
+        }
+        Ok(())
     }
 
     fn num_ty(&self, a: &Expr, b: &Expr) -> Ty {
@@ -486,6 +500,7 @@ impl<'a> Tr<'a> {
                 Ok(x)
             }
             BinOp::Add(_) | BinOp::Sub(_) | BinOp::Mul(_) | BinOp::Div(_) | BinOp::Rem(_) => {
+                self.check_mix(&bi.left, &bi.right)?;
                 let t = self.num_ty(&bi.left, &bi.right);
                 let l = self.expr_h(&bi.left, &t, b)?;
                 let r = self.expr_h(&bi.right, &t, b)?;
@@ -545,6 +560,7 @@ impl<'a> Tr<'a> {
                 })
             }
             BinOp::Eq(_) | BinOp::Ne(_) | BinOp::Lt(_) | BinOp::Le(_) | BinOp::Gt(_) | BinOp::Ge(_) => {
+                self.check_mix(&bi.left, &bi.right)?;
                 let t = match self.infer(&bi.left) {
                     Ty::Unknown => match self.infer(&bi.right) {
                         Ty::Unknown => Ty::Word,
@@ -1138,15 +1154,24 @@ impl<'a> Tr<'a> {
                 let mut b = vec![];
                 let hint = declared.clone().unwrap_or(Ty::Word);
                 let t = self.expr_h(&init.expr, &hint, &mut b)?;
+                let mut was_defaulted = false;
                 let ty = match declared {
                     Some(t) => t,
                     None => match self.infer(&init.expr) {
-                        Ty::Unknown => Ty::Word,
+                        Ty::Unknown => {
+                            was_defaulted = true;
+                            Ty::Word
+                        }
                         t => t,
                     },
                 };
                 let (p, vars) = self.pattern(pat)?;
                 for v in vars {
+                    if was_defaulted {
+                        self.defaulted.insert(v.clone());
+                    } else {
+                        self.defaulted.remove(&v);
+                    }
                     self.locals.push((v, ty.clone(), mutable));
                 }
                 let k = self.flow(rest, fin)?;
@@ -1269,6 +1294,7 @@ impl<'a> Tr<'a> {
                             return Err(format!("assignment to `{}` which is not a mutable local", v));
                         }
                         let ty = self.lookup_local(&v).unwrap_or(Ty::Word);
+                        self.check_mix(&a.left, &a.right)?;
                         let mut b = vec![];
                         let x = self.expr_h(&a.right, &ty, &mut b)?;
                         let k = self.flow(rest, fin)?;
@@ -1282,6 +1308,7 @@ impl<'a> Tr<'a> {
                     return Err(format!("assignment to `{}` which is not a mutable local", v));
                 }
                 let ty = self.lookup_local(&v).unwrap_or(Ty::Word);
+                self.check_mix(&bi.left, &bi.right)?;
                 let mut b = vec![];
                 let r = self.expr_h(&bi.right, &ty, &mut b)?;
                 let cv = coq_ident(&v);
@@ -2083,6 +2110,7 @@ fn translate_fn(
         locals: f.params.iter().map(|(n, t, m)| (n.clone(), t.clone(), *m)).collect(),
         fresh: 0,
         loops: vec![],
+        defaulted: BTreeSet::new(),
         in_const: false,
     };
     let mut nf = NeedsFlow { yes: f.params.iter().any(|p| p.2) };
